@@ -285,3 +285,39 @@ Theorem C07_f128_div_total_unconditional : forall fuel a b, repr128 a -> repr128
   exists r, f128_div fuel a b = Some r /\ repr128 r /\ (b <> 0 -> (r * b) mod M = a) /\ (b = 0 -> r = 0).
 Proof. apply f128_div_total_prime. change M with P128. exact P128_prime. Qed.
 Print Assumptions C07_f128_div_total_unconditional.
+
+(* ---- round 2: trait defaults of math/src/field/traits.rs instantiated for f128 ---- *)
+From VProofs Require FieldRoots FieldBytesSpec.
+From VModel Require Import FieldBytes.
+
+(* get_root_of_unity(n): order exactly 2^n for 1 <= n <= TWO_ADICITY = 40 (`exp` = `exp_vartime`, fuelled) *)
+Theorem C07_f128_get_root_of_unity_sound : forall fuel n w, 1 <= n <= 40 ->
+  f128_get_root_of_unity fuel n = Some w ->
+  repr128 w /\ w = f128_G ^ 2 ^ (40 - n) mod M /\
+  w ^ 2 ^ n mod M = 1 /\ w ^ 2 ^ (n - 1) mod M = M - 1 /\
+  forall k, 0 < k < 2 ^ n -> w ^ k mod M <> 1.
+Proof. exact FieldRoots.R128.f128_get_root_of_unity_sound. Qed.
+Print Assumptions C07_f128_get_root_of_unity_sound.
+
+Theorem C07_f128_get_root_of_unity_terminates : forall n, 1 <= n <= 40 ->
+  exists w, f128_get_root_of_unity 130 n = Some w.
+Proof. exact FieldRoots.R128.f128_get_root_of_unity_terminates. Qed.
+Print Assumptions C07_f128_get_root_of_unity_terminates.
+
+Theorem C07_f128_get_root_of_unity_ok : forall fuel n, 0 <= n < 2^32 ->
+  f128_get_root_of_unity_ok fuel n = andb (1 <=? n) (n <=? 40).
+Proof. exact FieldRoots.R128.f128_get_root_of_unity_ok_spec. Qed.
+Print Assumptions C07_f128_get_root_of_unity_ok.
+
+(* from_bytes_with_padding (Model/FieldBytes.v), ELEMENT_BYTES = 16 *)
+Theorem C07_f128_from_bytes_with_padding : forall bs, (length bs < 16)%nat -> Forall FieldBytesSpec.byte bs ->
+  f128_from_bytes_with_padding bs = FbOk (f128_new (of_le_bytes bs)) /\
+  0 <= of_le_bytes bs < 256 ^ (16 - 1) /\
+  repr128 (f128_new (of_le_bytes bs)) /\ f128_new (of_le_bytes bs) = of_le_bytes bs.
+Proof. exact FieldBytesSpec.f128_from_bytes_with_padding_spec. Qed.
+Print Assumptions C07_f128_from_bytes_with_padding.
+
+Theorem C07_f128_from_bytes_with_padding_long : forall bs, (16 <= length bs)%nat ->
+  f128_from_bytes_with_padding bs = FbAssertLen.
+Proof. exact FieldBytesSpec.f128_from_bytes_with_padding_long. Qed.
+Print Assumptions C07_f128_from_bytes_with_padding_long.
